@@ -19,7 +19,8 @@ fn has_half(c: usize) -> bool { c % 2 == 1 }
 
 /// `chain`: Some(has an indefinite container inside a definite one) for the deep nesting chains, whose `Item` tree is
 /// never built (recursion-free handling of 10^5 levels)
-struct Entry { bytes: Vec<u8>, item: Option<Item>, kind: &'static str, chain: Option<bool> }
+/// `prefix_nested`: for a strict prefix of a well-formed item, whether that item nests an indefinite container in a definite one
+struct Entry { bytes: Vec<u8>, item: Option<Item>, kind: &'static str, chain: Option<bool>, prefix_nested: Option<bool> }
 
 struct World { entries: Vec<Entry>, verdicts: Vec<[HashMap<String, String>; 6]>, lines: u64 }
 
@@ -59,7 +60,7 @@ fn corpus(seed: u64, n: usize) -> Vec<Entry> {
     // deterministic pseudo-tape per entry (the corpus is a pure function of VERIF_SEED)
     let tape_for = |i: u64| -> Vec<u8> { let mut x = hash_of(&(seed, i, "cfg-corpus")) | 1; (0 .. 768).map(|_| { x ^= x << 13; x ^= x >> 7; x ^= x << 17; (x >> 32) as u8 }).collect() };
     // structural skip patterns: exhaustive small structures (well-formed, known nesting)
-    for s in small_structures(4) { out.push(Entry { bytes: s.encode(), item: Some(s), kind: "structure", chain: None }) }
+    for s in small_structures(4) { out.push(Entry { bytes: s.encode(), item: Some(s), kind: "structure", chain: None, prefix_nested: None }) }
     let shapes: Vec<Item> = vec![
         Item::array(vec![Item::uint(1), Item::uint(2)]), Item::array(vec![Item::uint(1), Item::True]), Item::array(vec![Item::uint(3), Item::uint(4), Item::uint(500)]),
         Item::array(vec![Item::uint(0), Item::uint(7)]), Item::array(vec![Item::uint(1), Item::False]), Item::array(vec![Item::uint(2), Item::array(vec![])]), Item::array(vec![Item::uint(2), Item::Array(vec![Item::Array(vec![], None)], Some(vcore::W::Imm))]),
@@ -74,7 +75,7 @@ fn corpus(seed: u64, n: usize) -> Vec<Entry> {
         Item::array(vec![Item::uint(1), Item::uint(1_000_000_000)]), Item::array(vec![Item::uint(u64::MAX), Item::uint(999_999_999)]), Item::uint(65), Item::uint(0xd800), Item::uint(0x110000), Item::array(vec![Item::Null, Item::uint(3)]),
         Item::map(vec![(Item::uint(1), Item::text("a")), (Item::uint(2), Item::text("b"))]), Item::array(vec![Item::Null, Item::array(vec![Item::uint(1), Item::text("x")])]),
     ];
-    for s in &shapes { out.push(Entry { bytes: s.encode(), item: Some(s.clone()), kind: "shape", chain: None }) }
+    for s in &shapes { out.push(Entry { bytes: s.encode(), item: Some(s.clone()), kind: "shape", chain: None, prefix_nested: None }) }
     let mut i = 0u64;
     let n = out.len() + n;
     while out.len() < n {
@@ -82,10 +83,10 @@ fn corpus(seed: u64, n: usize) -> Vec<Entry> {
         let tape = tape_for(i);
         let mut g = Gen::new(&tape);
         match g.below(10) {
-            0 ..= 3 => { let it = if g.bool() { item(&mut g, &ItemCfg { max_nodes: 16, ..ItemCfg::FULL }) } else { let base = shapes[g.below(shapes.len())].clone(); vcore::gen::reframe(&mut g, &base, true, true, true) }; out.push(Entry { bytes: it.encode(), item: Some(it), kind: "well-formed", chain: None }) }
-            4 ..= 6 => { let base = if g.bool() { item(&mut g, &ItemCfg { max_nodes: 16, ..ItemCfg::FULL }) } else { shapes[g.below(shapes.len())].clone() }; let (b, _) = mutate(&mut g, &base.encode()); out.push(Entry { bytes: b, item: None, kind: "mutated", chain: None }) }
-            7 | 8 => { let base = if g.bool() { item(&mut g, &ItemCfg { max_nodes: 16, ..ItemCfg::FULL }) } else { shapes[g.below(shapes.len())].clone() }; let e = base.encode(); let c = g.below(e.len().max(1)); out.push(Entry { bytes: e[.. c].to_vec(), item: None, kind: "truncated", chain: None }) }
-            _ => { let n = g.below(24); out.push(Entry { bytes: (0 .. n).map(|_| g.byte()).collect(), item: None, kind: "random", chain: None }) }
+            0 ..= 3 => { let it = if g.bool() { item(&mut g, &ItemCfg { max_nodes: 16, ..ItemCfg::FULL }) } else { let base = shapes[g.below(shapes.len())].clone(); vcore::gen::reframe(&mut g, &base, true, true, true) }; out.push(Entry { bytes: it.encode(), item: Some(it), kind: "well-formed", chain: None, prefix_nested: None }) }
+            4 ..= 6 => { let base = if g.bool() { item(&mut g, &ItemCfg { max_nodes: 16, ..ItemCfg::FULL }) } else { shapes[g.below(shapes.len())].clone() }; let (b, _) = mutate(&mut g, &base.encode()); out.push(Entry { bytes: b, item: None, kind: "mutated", chain: None, prefix_nested: None }) }
+            7 | 8 => { let base = if g.bool() { item(&mut g, &ItemCfg { max_nodes: 16, ..ItemCfg::FULL }) } else { shapes[g.below(shapes.len())].clone() }; let e = base.encode(); let c = g.below(e.len().max(1)); out.push(Entry { bytes: e[.. c].to_vec(), item: None, kind: "truncated", chain: None, prefix_nested: Some(base.has_indef_in_def()) }) }
+            _ => { let n = g.below(24); out.push(Entry { bytes: (0 .. n).map(|_| g.byte()).collect(), item: None, kind: "random", chain: None, prefix_nested: None }) }
         }
     }
     // float items of all three widths: boundary-dense and uniform bit patterns (judged against absolute expectations by C12N)
@@ -101,12 +102,12 @@ fn corpus(seed: u64, n: usize) -> Vec<Entry> {
                 1 => Item::F32(if k / 3 < s32.len() { s32[k / 3] } else { g.f32_bits() }),
                 _ => Item::F64(if k / 3 < s64.len() { s64[k / 3] } else { g.f64_bits() })
             };
-            out.push(Entry { bytes: it.encode(), item: Some(it), kind: "float", chain: None });
+            out.push(Entry { bytes: it.encode(), item: Some(it), kind: "float", chain: None, prefix_nested: None });
         }
     }
     for e in out.iter_mut() { if e.bytes.len() > 4000 { e.bytes.truncate(4000); e.item = None } }
     // deep nesting chains (after the truncation above: these stay whole), incl. more than 65535 open containers
-    for kind in 0 .. vcore::gen::CHAIN_KINDS { for depth in [300usize, 5000, 66_000, 100_000] { let (b, _, nest) = vcore::gen::chain(kind, depth); out.push(Entry { bytes: b, item: None, kind: "deep-chain", chain: Some(nest) }) } }
+    for kind in 0 .. vcore::gen::CHAIN_KINDS { for depth in [300usize, 5000, 66_000, 100_000] { let (b, _, nest) = vcore::gen::chain(kind, depth); out.push(Entry { bytes: b, item: None, kind: "deep-chain", chain: Some(nest), prefix_nested: None }) } }
     out
 }
 
@@ -193,6 +194,18 @@ fn compare(i: u64, st: &mut Stats) -> CaseResult {
 fn noalloc_skip(i: u64, st: &mut Stats) -> CaseResult {
     let w = match world() { Ok(w) => w, Err(e) => return Err(Fail::new("infrastructure", e.clone())) };
     let e = &w.entries[i as usize];
+    // a strict prefix of a well-formed item: skip must fail, with the end-of-input class (or the documented refusal)
+    if let Some(nested) = e.prefix_nested {
+        for c in 0 .. 2 {
+            st.eval();
+            let v = match w.verdicts[i as usize][c].get("skip") { Some(v) => v, None => return Err(Fail::new("infrastructure", "no skip verdict".to_string())) };
+            if is_err_class(v, "eoi") || (is_err_class(v, "msg") && nested) { continue }
+            return Err(Fail::new(format!("noalloc-skip-prefix/{}", CONFIGS[c].0), format!("no-alloc skip() on {}, a strict prefix of a well-formed item, gave {} instead of an end-of-input error", hex(&e.bytes[.. e.bytes.len().min(200)]), v)))
+        }
+        st.class("no-alloc/strict prefix");
+        if e.bytes.len() >= 2 { st.nontrivial(hash_of(&e.bytes)) }
+        return Ok(())
+    }
     let nested = match (&e.item, e.chain) { (Some(it), _) => it.has_indef_in_def(), (None, Some(n)) => n, (None, None) => return Ok(()) };
     let len = e.bytes.len();
     for c in 0 .. 2 {
@@ -316,6 +329,8 @@ fn subs() -> Vec<Sub> {
               kind: Kind::Enumerate { quick: n, thorough: n, f: roundtrips_everywhere, complete_quick: false, complete_thorough: false } },
         Sub { prop: "C12N", name: "floats-in-every-configuration", rule: "900 float items (half, single, double; boundary patterns - zeros, subnormals, extremes, infinities, quiet and signalling NaNs with payloads - and uniform bits) through Decoder::f32/f64/f16, Decode for f32/f64 and the serde bridge's f32/f64 in each of the six feature configurations, against absolute expectations: same width -> identical bits; narrower item -> the exact wider value (NaN stays NaN); wider item -> type mismatch; half item without the half feature -> type mismatch; position = end of the item; evaluations = verdicts judged",
               kind: Kind::Enumerate { quick: n, thorough: n, f: floats_everywhere, complete_quick: false, complete_thorough: false } },
+        Sub { prop: "C04N", name: "noalloc-skip", rule: "the skip accessor in the two no-alloc builds (a different implementation from the alloc one): on well-formed corpus entries the position equals the item length (or the documented refusal), on strict prefixes of well-formed items it fails with the end-of-input class",
+              kind: Kind::Enumerate { quick: n, thorough: n, f: noalloc_skip, complete_quick: false, complete_thorough: false } },
         Sub { prop: "C06N", name: "noalloc-skip", rule: "well-formed corpus entries through skip() of the two no-alloc builds: position == item length, or the documented refusal and the tree does contain an indefinite array/map below a definite one",
               kind: Kind::Enumerate { quick: n, thorough: n, f: noalloc_skip, complete_quick: false, complete_thorough: false } },
     ]
